@@ -55,6 +55,8 @@ var mid = _.props.mid;
 var log = bs.log || [];
 if (m && typeof m === "object") {
   log.push(LOGENTRY);
+  // a receiver may do what it likes with its copy of the message - also before it fails
+  if (m.items && m.items.length && m.items[0] && typeof m.items[0] === "object") { m.items[0].n = 99; m.items[0].seenBy = mid; }
   if (m.nan && m.nan[mid]) { return {"log": log, "bad": 0/0}; }
   var emits = (m.emit && m.emit[mid]) || [];
   var failAfter = (m.fail && m.fail[mid] !== undefined) ? m.fail[mid] : -1;
@@ -225,6 +227,11 @@ func (g *vfGen) message(hops int) map[string]interface{} {
 			}
 		}
 		m["emit"] = em
+	}
+	if c.Chance(1, 3, "items") {
+		// cargo: an array with objects in it (what a receiver writes into its copy of it must
+		// not show in the message as reported or as seen by others)
+		m["items"] = []interface{}{map[string]interface{}{"n": 1.0}, map[string]interface{}{"n": 2.0}}
 	}
 	if len(g.mids) > 0 && c.Chance(1, 6, "skips") {
 		m["skip"] = map[string]interface{}{g.mids[c.Intn(len(g.mids), "skipper")]: true}
